@@ -688,5 +688,9 @@ func init() {
 	kit.Register("C12c",
 		"rapid: getput.Get for a mutable (salt 0/5/64 bytes) or immutable target over 1..12 simulated nodes with structured IDs, whose get replies are genuine (seq 1..6), stale (seq 0), carry a forged value, another key, or omit v / k / sig / seq / token, have a non-string token, are errors, or never come; neighbour lists drive the traversal. Oracle: a returned value verifies for the requested target under the harness's own BEP 44 code, has the highest seq among the verifying replies delivered by the nodes actually asked, a value is returned only if such a reply was delivered and is returned whenever one was; the call returns (deadlock detector). Non-trivial: both a forged/incomplete and a verifying reply were delivered.",
 		[]string{"replies are delivered synchronously with the query, so every asked node's reply precedes the stall"},
-		genC12c, runC12c)
+		genC12c, func(sc C12cSc, c *kit.Case) *kit.Violation {
+			// see C16: a get traversal ended early by the stale stall report (F10) returns before replies that
+			// are then still delivered; a genuine client-side defect shows on every execution
+			return kit.Confirm(runC12c(sc, c), 3, []string{"C12:client-lost-valid-value", "C12:client-returned-stale"}, func() *kit.Violation { return runC12c(sc, &kit.Case{}) })
+		})
 }
